@@ -90,7 +90,7 @@ fn explore(
     }
 }
 
-fn check_input(h: &History, nodes: &[usize], deviations: usize, t: &mut Tally) -> Vec<(String, String)> {
+fn check_input(h: &History, nodes: &[usize], deviations: usize, lean: bool, t: &mut Tally) -> Vec<(String, String)> {
     let mut out = vec![];
     let sets: Vec<SMap> = nodes.iter().map(|&i| h.nodes[i].state.clone()).collect();
     let chains: Vec<_> = sets.iter().map(|s| h.store.full_chain(s)).collect();
@@ -112,9 +112,10 @@ fn check_input(h: &History, nodes: &[usize], deviations: usize, t: &mut Tally) -
             out.push(("nondeterministic-repeat".into(), format!("{base:?} then {again:?}")));
         }
     }
+    // (lean passes run the order exploration and the argument permutations only; the other passes run everything)
     // whichever thread: the same call on a thread that has never resolved anything (the worker thread this
     // runs on has resolved thousands of other histories that reuse the same event IDs with other contents)
-    {
+    if !lean {
         let fresh = std::thread::scope(|sc| {
             sc.spawn(|| {
                 let mut t2 = Tally::new();
@@ -134,7 +135,7 @@ fn check_input(h: &History, nodes: &[usize], deviations: usize, t: &mut Tally) -
         }
     }
     // an empty state set (a server that knows nothing about the room) among the others, in every position
-    if k == 2 {
+    if k == 2 && !lean {
         let mut with_empty = Input { h, sets: inp.sets.clone(), chains: inp.chains.clone() };
         with_empty.sets.push(SMap::new());
         with_empty.chains.push(BTreeSet::new());
@@ -158,7 +159,7 @@ fn check_input(h: &History, nodes: &[usize], deviations: usize, t: &mut Tally) -
         }
     }
     // a store that cannot load one of the conflicted events (not received yet): still one result per collection
-    if k == 2 && conflicted {
+    if k == 2 && conflicted && !lean {
         let hidden: Option<String> = inp.sets[0].iter().find(|(key, id)| inp.sets[1].get(*key) != Some(*id)).map(|(_, id)| id.clone());
         if let Some(hidden) = hidden {
             let mut first: Option<Outcome> = None;
@@ -217,7 +218,7 @@ fn check_input(h: &History, nodes: &[usize], deviations: usize, t: &mut Tally) -
     }
     // a fork listed twice (two servers reporting the same state): still a permutation-invariant collection —
     // every arrangement of [S0, S0, S1] and of [S1, S1, S0] gives one result
-    if k == 2 && conflicted {
+    if k == 2 && conflicted && !lean {
         for twice in 0..2usize {
             let idx = [twice, twice, 1 - twice];
             let dup = Input {
@@ -277,6 +278,8 @@ struct Explorer<'a> {
     depth: usize,
     max_k: usize,
     deviations: usize,
+    /// depth-3 passes over many templates: order exploration and argument permutations only
+    lean: bool,
 }
 
 impl Explorer<'_> {
@@ -290,7 +293,7 @@ impl Explorer<'_> {
                     return;
                 }
                 // two deviations only where there is something to reorder: conflicting inputs
-                for (sig, detail) in check_input(h, &s, self.deviations, t) {
+                for (sig, detail) in check_input(h, &s, self.deviations, self.lean, t) {
                     self.report.violation(&sig, || detail, || json!({"history": h.to_json(), "merge": s}));
                 }
             }
@@ -316,7 +319,7 @@ fn replay(case: &Value) -> Vec<(String, String)> {
         return vec![("replay/history-not-reproducible".into(), "an action of the trail is no longer accepted".into())];
     };
     let nodes: Vec<usize> = case["merge"].as_array().unwrap().iter().map(|x| x.as_u64().unwrap() as usize).collect();
-    check_input(&h, &nodes, 2, &mut Tally::new())
+    check_input(&h, &nodes, 2, false, &mut Tally::new())
 }
 
 /// records the wall time of one pass when it goes out of scope (the pass loop has several exits)
@@ -351,7 +354,8 @@ fn main() {
             (3, 3, 1, creator_templates.clone(), vec!['E']),
             (2, 3, 1, all_templates.clone(), ab.clone()),
             (1, 3, 2, all_templates.clone(), ab.clone()),
-            (3, 2, 1, power_templates.clone(), vec!['A']),
+            // (without the no-op-prone `C sets join_rules public`: this is the widest quick pass)
+            (3, 2, 1, vec![0, 1, 2, 3, 6, 7], vec!['A']),
             (2, 2, 1, all17.clone(), vec!['C']),
             // a moderator's join rule that a knock cites (so it sits in the auth chains), later join rules by creator / moderator
             (3, 2, 0, vec![17, 18, 7, 19], vec!['A']),
@@ -401,7 +405,8 @@ fn main() {
         // phase 1: the depth-1 nodes (checked here) and, for deep passes, the list of accepted
         // two-action prefixes; phase 2: one shard per prefix, for load balance
         let split = depth >= 3;
-        let ex1 = Explorer { report: &report, templates: templates.clone(), depth: if split { 1 } else { depth }, max_k, deviations };
+        let lean = args.tier == Tier::Quick && depth >= 3 && templates.len() >= 6;
+        let ex1 = Explorer { report: &report, templates: templates.clone(), depth: if split { 1 } else { depth }, max_k, deviations, lean };
         let prefixes = std::sync::Mutex::new(Vec::<(char, Action, Action)>::new());
         par_shards(&report, shards.len(), |i, t| {
             let (with_pl, a) = shards[i];
@@ -422,7 +427,7 @@ fn main() {
         if split {
             let mut prefixes = prefixes.into_inner().unwrap();
             prefixes.sort_by_key(|(w, a, b)| (*w, a.template, a.prev, a.ts_class, b.template, b.prev, b.ts_class));
-            let ex = Explorer { report: &report, templates: templates.clone(), depth, max_k, deviations };
+            let ex = Explorer { report: &report, templates: templates.clone(), depth, max_k, deviations, lean };
             par_shards(&report, prefixes.len(), |i, t| {
                 let (with_pl, a, b) = prefixes[i];
                 let h = History::base_kind(if matches!(with_pl, 'D' | 'E' | 'd' | 'e') { 10 } else { 11 }, with_pl);
